@@ -531,8 +531,16 @@ def negation(ctx, roles, none_b, some_b, cfg):
         return None
     core = src[1]["key"]
     args = [strip_refs(a) for a in src[2]]
-    ctx.check(args == [("arg", 1), ("arg", 2)], "K1.same-operands", "none passes its own (data, operands) in order (%s)" % cfg, "the core is called with %s" % [show_expr(a) for a in args], where=where, fn=none_b.key, nontrivial=True)
-    if core == some_b.key:
+
+    def constant(a, depth=0):
+        """An argument that is the same value at every call: a constant, or an aggregate of constants (the unit variant
+        of a mode enum that tells a shared core which question is asked)."""
+        a = strip_refs(a)
+        return a[0] == "const" or (a[0] == "agg" and not a[1].get("closure") and depth < 4 and all(constant(x, depth + 1) for x in a[2]))
+    # what the core is given besides constants is none's own (data, operands), in order; that the constants are the ones
+    # `some` passes is part of K1.calls-some (same call = same argument list)
+    ctx.check([a for a in args if not constant(a)] == [("arg", 1), ("arg", 2)], "K1.same-operands", "none passes its own (data, operands) in order (%s)" % cfg, "the core is called with %s" % [show_expr(a) for a in args], where=where, fn=none_b.key, nontrivial=True)
+    if core == some_b.key and args == [("arg", 1), ("arg", 2)]:
         ctx.ok("K1.calls-some", "none negates the function bound to `some` (%s)" % cfg, nontrivial=True)
         return core
     # none and some share a core: some must be Bool(b) of the same call with its own (data, operands)
@@ -541,7 +549,7 @@ def negation(ctx, roles, none_b, some_b, cfg):
         ctx.unread("K1.calls-some", "some (%s)" % cfg, "none negates %s; the function bound to `some` is not read as a decision over the same call" % core, where=some_b.where(), fn=some_b.key)
         return core
     g2, b2, s2 = rs
-    same = bool(g2) and not b2 and all(s2.get(g[1]) is not None and s2[g[1]][0] == "call" and s2[g[1]][1] and s2[g[1]][1].get("key") == core and [strip_refs(a) for a in s2[g[1]][2]] == [("arg", 1), ("arg", 2)] for g in g2)
+    same = bool(g2) and not b2 and all(s2.get(g[1]) is not None and s2[g[1]][0] == "call" and s2[g[1]][1] and s2[g[1]][1].get("key") == core and [strip_refs(a) for a in s2[g[1]][2]] == args for g in g2)
     kinds = {g[0] for g in good}, {g[0] for g in g2}
     same = same and ((kinds[0] == {"bool"} and kinds[1] == {"bool"}) or (kinds[0] == {"bool-of-value"} and kinds[1] <= {"value", "bool-of-value"}))
     ctx.check(same, "K1.calls-some", "none negates the boolean that some returns: both are built from one call of %s with their own (data, operands) (%s)" % (core.split("::")[-1], cfg),
